@@ -571,6 +571,584 @@ def r11_5(ctx):
             "Any - Optimize is not idempotent", facts)
 
 
+# -- R11.6: direction of the class-hierarchy queries --------------------------------
+
+HIER = "SuperClassHierarchy"
+# producers of a class-name -> [class-name] mapping and the direction they map in
+_MAPPING_PRODUCERS = {
+    "ExtractSuperClassesByName": "up", "ExtractSuperClasses": "up",
+    "GetSuperClasses": "up", "GetSubClasses": "down",
+}
+_FLIP = {"up": "down", "down": "up"}
+
+
+def _last(node):
+  return (dotted(node) or "").split(".")[-1]
+
+
+def _local_values(fn, name):
+  """Values assigned to local `name` in fn (plain single-target assignments);
+  None if it is bound in any other way."""
+  out = []
+  for n in walk_no_nested(fn):
+    if isinstance(n, ast.Assign):
+      for t in n.targets:
+        if isinstance(t, ast.Name) and t.id == name:
+          if len(n.targets) != 1:
+            return None
+          out.append(n.value)
+        elif any(isinstance(x, ast.Name) and x.id == name
+                 and isinstance(x.ctx, ast.Store) for x in ast.walk(t)):
+          return None
+    elif isinstance(n, (ast.AugAssign, ast.AnnAssign, ast.NamedExpr)):
+      t = n.target
+      if isinstance(t, ast.Name) and t.id == name:
+        return None
+    elif isinstance(n, (ast.For, ast.comprehension)):
+      if any(isinstance(x, ast.Name) and x.id == name for x in ast.walk(n.target)):
+        return None
+  return out
+
+
+def _mapping_direction(mod, fn, expr, what, depth=0):
+  """Direction ('up': class -> superclasses, 'down': class -> subclasses) of a
+  hierarchy mapping expression inside `fn`."""
+  if depth > 5:
+    raise AnalysisError(f"{what}: mapping provenance too deep")
+  if isinstance(expr, ast.Call):
+    last = _last(expr.func)
+    if last in _MAPPING_PRODUCERS and not expr.args:
+      return {_MAPPING_PRODUCERS[last]}
+    if last == "invert_dict" and len(expr.args) == 1:
+      return {_FLIP[d] for d in
+              _mapping_direction(mod, fn, expr.args[0], what, depth + 1)}
+    if last in ("dict", "copy", "deepcopy") and len(expr.args) <= 1:
+      inner = expr.args[0] if expr.args else expr.func.value \
+          if isinstance(expr.func, ast.Attribute) else None
+      if inner is not None:
+        return _mapping_direction(mod, fn, inner, what, depth + 1)
+    if last == "Visit" and len(expr.args) == 1 and \
+        isinstance(expr.args[0], ast.Call) and \
+        _last(expr.args[0].func) in _MAPPING_PRODUCERS:
+      return {_MAPPING_PRODUCERS[_last(expr.args[0].func)]}
+  if isinstance(expr, ast.Name):
+    vals = _local_values(fn, expr.id)
+    if not vals:
+      raise AnalysisError(f"{what}: `{expr.id}` is not a plainly assigned local")
+    dirs = set()
+    for v in vals:
+      dirs |= _mapping_direction(mod, fn, v, what, depth + 1)
+    # in-place merges: name.update(X)
+    for c in calls_in(fn):
+      if isinstance(c.func, ast.Attribute) and c.func.attr == "update" and \
+          isinstance(c.func.value, ast.Name) and c.func.value.id == expr.id:
+        if len(c.args) != 1 or c.keywords:
+          raise AnalysisError(f"{what}: `{src(c)}` not understood")
+        dirs |= _mapping_direction(mod, fn, c.args[0], what, depth + 1)
+    return dirs
+  raise AnalysisError(f"{what}: mapping expression `{src(expr)}` not understood")
+
+
+def _hierarchy_model(ctx, mod):
+  """-> (field -> direction, method -> set of directions, ctor site facts)."""
+  def make():
+    opt = mod.func("Optimize")
+    ctor = [c for c in calls_in(opt) if _last(c.func) == HIER]
+    if len(ctor) != 1 or len(ctor[0].args) != 1 or ctor[0].keywords:
+      raise AnalysisError(f"Optimize: expected one {HIER}(<mapping>) call")
+    arg_dirs = _mapping_direction(mod, opt, ctor[0].args[0], f"Optimize:{HIER}")
+    init = mod.func(f"{HIER}.__init__")
+    params = [a.arg for a in init.args.args[1:]]
+    if len(params) != 1:
+      raise AnalysisError(f"{HIER}.__init__ signature not understood")
+    fields = {}
+
+    def field_dir(expr, depth=0):
+      if depth > 4:
+        raise AnalysisError(f"{HIER}.__init__: field provenance too deep")
+      if isinstance(expr, ast.Name) and expr.id == params[0]:
+        return "param"
+      d = dotted(expr)
+      if d and d.startswith("self.") and d.count(".") == 1:
+        f = d.split(".")[1]
+        if f not in fields:
+          raise AnalysisError(f"{HIER}.__init__: self.{f} read before set")
+        return fields[f]
+      if isinstance(expr, ast.Call):
+        last = _last(expr.func)
+        if last == "invert_dict" and len(expr.args) == 1:
+          inner = field_dir(expr.args[0], depth + 1)
+          return {"param": "~param", "~param": "param"}[inner]
+        if last in ("dict", "copy", "deepcopy"):
+          inner = expr.args[0] if expr.args else (
+              expr.func.value if isinstance(expr.func, ast.Attribute) else None)
+          if inner is not None and len(expr.args) <= 1 and not expr.keywords:
+            return field_dir(inner, depth + 1)
+      raise AnalysisError(
+          f"{HIER}.__init__: field value `{src(expr)}` not understood")
+    for st in init.body:
+      if isinstance(st, ast.Expr) and isinstance(st.value, (ast.Constant, ast.Call)):
+        if isinstance(st.value, ast.Call) and not src(st.value).startswith("super()"):
+          raise AnalysisError(f"{HIER}.__init__: `{src(st)}` not understood")
+        continue
+      if not (isinstance(st, ast.Assign) and len(st.targets) == 1
+              and (dotted(st.targets[0]) or "").startswith("self.")):
+        raise AnalysisError(f"{HIER}.__init__: `{src(st)}` not understood")
+      fields[dotted(st.targets[0]).split(".")[1]] = field_dir(st.value)
+    methods = mod.methods(HIER)
+    # fields must not be rebound / mutated outside __init__
+    for name, m in methods.items():
+      if name == "__init__":
+        continue
+      for n in ast.walk(m):
+        if isinstance(n, ast.Attribute) and dotted(n.value) == "self" and \
+            n.attr in fields and not isinstance(n.ctx, ast.Load):
+          raise AnalysisError(f"{HIER}.{name} rebinds self.{n.attr}")
+    reads = {}
+
+    def direct(m):
+      return {n.attr for n in ast.walk(m) if isinstance(n, ast.Attribute)
+              and dotted(n.value) == "self" and n.attr in fields}
+
+    def callees(m):
+      return {c.func.attr for c in calls_in(m)
+              if isinstance(c.func, ast.Attribute) and dotted(c.func.value) == "self"
+              and c.func.attr in methods}
+    for name, m in methods.items():
+      if name == "__init__":
+        continue
+      seen, todo, fs = set(), [name], set()
+      while todo:
+        x = todo.pop()
+        if x in seen:
+          continue
+        seen.add(x)
+        fs |= direct(methods[x])
+        todo.extend(callees(methods[x]))
+      reads[name] = fs
+    return {"arg_dirs": arg_dirs, "fields": fields, "reads": reads,
+            "ctor_line": ctor[0].lineno}
+  return ctx.memo(("c11hier", mod.rel), make)
+
+
+def _query_direction(model, meth, what):
+  """Direction in which hierarchy method `meth` walks, as a set."""
+  if meth not in model["reads"]:
+    raise AnalysisError(f"{what}: `{meth}` is not a method of {HIER}")
+  if len(model["arg_dirs"]) != 1:
+    raise AnalysisError(f"{what}: the mapping handed to {HIER} has directions "
+                        f"{sorted(model['arg_dirs'])}")
+  base = next(iter(model["arg_dirs"]))
+  out = set()
+  for f in model["reads"][meth]:
+    out.add(base if model["fields"][f] == "param" else _FLIP[base])
+  return out
+
+
+def _hierarchy_consumers(mod, fn):
+  """Visitor classes constructed in Optimize with the hierarchy object:
+  [(class name, constructor call)]."""
+  locals_ = {n.targets[0].id for n in walk_no_nested(fn)
+             if isinstance(n, ast.Assign) and len(n.targets) == 1
+             and isinstance(n.targets[0], ast.Name)
+             and isinstance(n.value, ast.Call) and _last(n.value.func) == HIER}
+  out = []
+  for c in calls_in(fn):
+    name = _last(c.func)
+    if name == HIER or name not in mod.classes:
+      continue
+    if any(isinstance(a, ast.Name) and a.id in locals_ for a in c.args) or \
+        any(isinstance(a, ast.Call) and _last(a.func) == HIER for a in c.args):
+      out.append((name, c))
+  return out
+
+
+def _hierarchy_attr(mod, cls):
+  """Attribute of visitor `cls` that holds the constructor's hierarchy argument."""
+  init = mod.methods(cls).get("__init__")
+  if init is None or len(init.args.args) != 2:
+    raise AnalysisError(f"{cls}.__init__(self, hierarchy) not recognised")
+  p = init.args.args[1].arg
+  attrs = [dotted(n.targets[0]).split(".")[1] for n in ast.walk(init)
+           if isinstance(n, ast.Assign) and len(n.targets) == 1
+           and (dotted(n.targets[0]) or "").startswith("self.")
+           and isinstance(n.value, ast.Name) and n.value.id == p]
+  if len(attrs) != 1:
+    raise AnalysisError(f"{cls}.__init__ does not store its hierarchy argument once")
+  return attrs[0]
+
+
+def _hierarchy_queries(mod, m, attr):
+  """[(call, method name)] for self.<attr>.<M>(..) calls in method m, also
+  through a local alias `h = self.<attr>`."""
+  aliases = {n.targets[0].id for n in walk_no_nested(m)
+             if isinstance(n, ast.Assign) and len(n.targets) == 1
+             and isinstance(n.targets[0], ast.Name)
+             and dotted(n.value) == f"self.{attr}"}
+  out = []
+  for c in calls_in(m):
+    if not isinstance(c.func, ast.Attribute):
+      continue
+    recv = c.func.value
+    if dotted(recv) == f"self.{attr}" or \
+        (isinstance(recv, ast.Name) and recv.id in aliases):
+      out.append((c, c.func.attr))
+  return out
+
+
+def _rename(expr, old, new="_"):
+  class T(ast.NodeTransformer):
+    def visit_Name(self, node):
+      return ast.Name(id=new, ctx=node.ctx) if node.id == old else node
+  import copy
+  return src(T().visit(copy.deepcopy(expr)))
+
+
+def _join_arg(mod, m, u):
+  """The (resolved) argument of the `return ..JoinTypes(X)` of a VisitUnionType
+  whose other returns give back the input union unchanged."""
+  joins = []
+  for r in _returns(m):
+    v = r.value
+    if isinstance(v, ast.Name) and v.id == u:
+      continue
+    if isinstance(v, ast.Call) and _last(v.func) == "JoinTypes" and \
+        len(v.args) == 1 and not v.keywords:
+      joins.append(v.args[0])
+    else:
+      raise AnalysisError(
+          f"{m.name}: return value `{src(v) if v is not None else None}` "
+          "not understood")
+  if len(joins) != 1:
+    raise AnalysisError(f"{m.name}: expected one `return ..JoinTypes(..)`")
+  x = joins[0]
+  for _ in range(3):
+    if isinstance(x, ast.Call) and _last(x.func) in ("tuple", "list") and \
+        len(x.args) == 1:
+      x = x.args[0]
+    elif isinstance(x, ast.Name):
+      vals = _local_values(m, x.id)
+      if not vals or len(vals) != 1:
+        raise AnalysisError(f"{m.name}: `{x.id}` is not assigned exactly once")
+      x = vals[0]
+  return x
+
+
+def _count_threshold(cond, t):
+  """`C[K] <= 1` / `C[K] < 2` / `not C[K] > 1` / `not C[K] >= 2` -> (C, K src
+  with the member variable renamed); None if not that idiom."""
+  neg = False
+  while isinstance(cond, ast.UnaryOp) and isinstance(cond.op, ast.Not):
+    cond, neg = cond.operand, not neg
+  if not (isinstance(cond, ast.Compare) and len(cond.ops) == 1):
+    return None
+  l, op, r = cond.left, cond.ops[0], cond.comparators[0]
+  if not (isinstance(l, ast.Subscript) and isinstance(l.value, ast.Name)
+          and isinstance(r, ast.Constant) and isinstance(r.value, int)):
+    return None
+  keeps_single = (
+      (not neg and isinstance(op, ast.LtE) and r.value == 1) or
+      (not neg and isinstance(op, ast.Lt) and r.value == 2) or
+      (neg and isinstance(op, ast.Gt) and r.value == 1) or
+      (neg and isinstance(op, ast.GtE) and r.value == 2))
+  if not keeps_single:
+    return None
+  return l.value.id, _rename(l.slice, t)
+
+
+def _absorb_shape(mod, cls, m, u, attr, model):
+  """Subset shape: `return JoinTypes([t for t in u.type_list if COUNT[key(t)]
+  <= 1])` where COUNT accumulates the closure of every member.
+  -> (verdict, facts)."""
+  what = f"{cls}.{m.name}"
+  comp = _join_arg(mod, m, u)
+  if not (isinstance(comp, (ast.ListComp, ast.GeneratorExp))
+          and len(comp.generators) == 1
+          and isinstance(comp.generators[0].target, ast.Name)
+          and isinstance(comp.elt, ast.Name)
+          and comp.elt.id == comp.generators[0].target.id
+          and src(comp.generators[0].iter) == f"{u}.type_list"):
+    return None
+  g = comp.generators[0]
+  t = g.target.id
+  if len(g.ifs) != 1:
+    raise AnalysisError(f"{what}: member filter has {len(g.ifs)} conditions")
+  ct = _count_threshold(g.ifs[0], t)
+  if ct is None:
+    raise AnalysisError(
+        f"{what}: member filter `{src(g.ifs[0])}` is not the "
+        "`count[key(member)] <= 1` idiom")
+  counter, key = ct
+  queries = _hierarchy_queries(mod, m, attr)
+  if not queries:
+    raise AnalysisError(f"{what}: no query of self.{attr} found")
+  feeding = []
+  for call, meth in queries:
+    st = mod.enclosing_stmt(call)
+    feeds = (isinstance(st, ast.AugAssign) and isinstance(st.op, ast.Add)
+             and isinstance(st.target, ast.Name) and st.target.id == counter) or (
+                 isinstance(st, ast.Expr) and isinstance(st.value, ast.Call)
+                 and isinstance(st.value.func, ast.Attribute)
+                 and st.value.func.attr == "update"
+                 and isinstance(st.value.func.value, ast.Name)
+                 and st.value.func.value.id == counter)
+    if not feeds:
+      raise AnalysisError(
+          f"{what}: hierarchy query `{src(call)}` does not feed the counter "
+          f"`{counter}`: its role is not understood")
+    # the member the closure is taken of: the enclosing loop's variable
+    loop = mod.parent.get(st)
+    while loop is not None and not isinstance(loop, (ast.For,) + _FUNCS):
+      loop = mod.parent.get(loop)
+    if not (isinstance(loop, ast.For) and isinstance(loop.target, ast.Name)
+            and f"{u}.type_list" in src(loop.iter)):
+      raise AnalysisError(
+          f"{what}: `{src(call)}` is not evaluated once per union member")
+    if len(call.args) != 1 or _rename(call.args[0], loop.target.id) != key:
+      raise AnalysisError(
+          f"{what}: closure is keyed by `{src(call.args[0]) if call.args else ''}` "
+          f"but the filter probes `{src(g.ifs[0])}`")
+    feeding.append((meth, sorted(_query_direction(model, meth, what))))
+  facts = {"shape": "drop members counted in more than one member's closure",
+           "closures": [f"{mth}:{'/'.join(ds)}" for mth, ds in feeding]}
+  return _direction_verdict(what, feeding, "down"), facts
+
+
+def _direction_verdict(what, feeding, want):
+  """True if every closure walks `want`; False if some closure definitely
+  walks the other way; AnalysisError if a closure reads both tables."""
+  for meth, ds in feeding:
+    if len(ds) != 1:
+      raise AnalysisError(
+          f"{what}: {HIER}.{meth} reads tables of direction {ds}: its "
+          "direction is not definite")
+  return all(ds == [want] for _, ds in feeding)
+
+
+def _common_shape(mod, cls, m, u, attr, model):
+  """Join shape: the result types are built from names drawn out of a set that
+  is the intersection of one closure per member."""
+  what = f"{cls}.{m.name}"
+  comp = _join_arg(mod, m, u)
+  if not (isinstance(comp, (ast.ListComp, ast.GeneratorExp))
+          and len(comp.generators) == 1
+          and isinstance(comp.generators[0].iter, ast.Name)):
+    return None
+  acc = comp.generators[0].iter.id
+  pruning = {id(c) for cond in comp.generators[0].ifs
+             for c in ast.walk(cond) if isinstance(c, ast.Call)}
+  feeding = []
+  covered = []
+  for call, meth in _hierarchy_queries(mod, m, attr):
+    if id(call) in pruning:
+      continue
+    par = mod.parent.get(call)
+    st = mod.enclosing_stmt(call)
+    if isinstance(par, ast.Assign) and len(par.targets) == 1 and \
+        isinstance(par.targets[0], ast.Name) and par.targets[0].id == acc:
+      pass
+    elif isinstance(par, ast.Call) and isinstance(par.func, ast.Attribute) and \
+        par.func.attr in ("intersection_update", "intersection") and \
+        isinstance(par.func.value, ast.Name) and par.func.value.id == acc:
+      pass
+    elif isinstance(par, ast.AugAssign) and isinstance(par.op, ast.BitAnd) and \
+        isinstance(par.target, ast.Name) and par.target.id == acc:
+      pass
+    else:
+      raise AnalysisError(
+          f"{what}: hierarchy query `{src(call)}` does not flow into the "
+          f"candidate set `{acc}` by assignment / intersection")
+    loop = mod.parent.get(st)
+    while loop is not None and not isinstance(loop, (ast.For,) + _FUNCS):
+      loop = mod.parent.get(loop)
+    covered.append(src(loop.iter) if isinstance(loop, ast.For)
+                   else src(call.args[0]) if call.args else "?")
+    feeding.append((meth, sorted(_query_direction(model, meth, what))))
+  if not feeding:
+    raise AnalysisError(f"{what}: no closure feeds the candidate set `{acc}`")
+  for n in walk_no_nested(m):
+    if isinstance(n, ast.Call) and isinstance(n.func, ast.Attribute) and \
+        isinstance(n.func.value, ast.Name) and n.func.value.id == acc and \
+        n.func.attr in ("update", "add", "union"):
+      raise AnalysisError(f"{what}: candidate set `{acc}` is also grown")
+  whole = any(c == f"{u}.type_list" for c in covered) or (
+      any(f"{u}.type_list[0]" in c for c in covered)
+      and any(c == f"{u}.type_list[1:]" for c in covered))
+  if not whole:
+    raise AnalysisError(
+        f"{what}: closures are taken over {covered}: cannot see that every "
+        "member of the union is covered")
+  facts = {"shape": "join of names common to one closure per member",
+           "closures": [f"{mth}:{'/'.join(ds)}" for mth, ds in feeding],
+           "members_covered": covered}
+  return _direction_verdict(what, feeding, "up"), facts
+
+
+def check_hierarchy_direction(ctx):
+  """Shared by R11.6 and R1.6 (C01)."""
+  mod = get_module(ctx, OPT)
+  fn = mod.func("Optimize")
+  model = _hierarchy_model(ctx, mod)
+  dirs = sorted(model["arg_dirs"])
+  both = set(model["fields"].values()) == {"param", "~param"}
+  ctx.check(dirs == ["up"] and both, f"{HIER}:mapping-direction", OPT,
+            model["ctor_line"],
+            f"Optimize builds {HIER} from a mapping with direction(s) {dirs} "
+            f"and its fields are {model['fields']}: a class -> superclasses "
+            "mapping and its inversion are needed to answer both kinds of query",
+            {"mapping": dirs, "fields": model["fields"],
+             "method_reads": {k: sorted(v) for k, v in model["reads"].items()}})
+  consumers = _hierarchy_consumers(mod, fn)
+  if not consumers:
+    raise AnalysisError("Optimize: no visitor is constructed with the hierarchy")
+  seen = set()
+  for cls, call in consumers:
+    if cls in seen:
+      continue
+    seen.add(cls)
+    m = mod.methods(cls).get("VisitUnionType")
+    if m is None or len(m.args.args) != 2:
+      raise AnalysisError(f"{cls}: VisitUnionType(self, union) not found")
+    u = m.args.args[1].arg
+    attr = _hierarchy_attr(mod, cls)
+    res = _absorb_shape(mod, cls, m, u, attr, model)
+    if res is not None:
+      ok, facts = res
+      ctx.check(ok, f"{cls}.VisitUnionType:absorbed-member-is-a-subclass", OPT,
+                m.lineno,
+                f"{cls} drops a union member when it lies in the closure "
+                f"{facts['closures']} of another member; only a member of "
+                "another member's SUBclass closure is covered by what stays "
+                "(Union[A, B(A)] must become A, not B): with the superclass "
+                "closure the union is narrowed to the subclass", facts)
+      continue
+    res = _common_shape(mod, cls, m, u, attr, model)
+    if res is not None:
+      ok, facts = res
+      ctx.check(ok, f"{cls}.VisitUnionType:joined-type-is-a-common-superclass",
+                OPT, m.lineno,
+                f"{cls} replaces a union by names common to the closures "
+                f"{facts['closures']} of its members; only common SUPERclasses "
+                "admit every member", facts)
+      continue
+    raise AnalysisError(
+        f"{cls}.VisitUnionType: neither the subset-filter nor the "
+        "common-closure shape; the role of its hierarchy queries is unknown")
+
+
+@rule("R11.6", "C11", floor=3)
+def r11_6(ctx):
+  """Hierarchy-based union rewriting walks the hierarchy in the widening
+  direction."""
+  check_hierarchy_direction(ctx)
+
+
+# -- R11.7: bare-class consumers run on simplified containers ---------------------------
+
+def _applied_passes(mod, fn, unit):
+  """Names of the visitor classes applied (`X.Visit(P(..))`, also through a
+  local bound to `P(..)`) when `unit` is evaluated."""
+  out = set()
+  if not isinstance(unit, ast.AST):
+    return out
+  for c in ast.walk(unit):
+    if isinstance(c, ast.Call) and isinstance(c.func, ast.Attribute) and \
+        c.func.attr == "Visit" and len(c.args) == 1:
+      a = c.args[0]
+      if isinstance(a, ast.Name):
+        vals = _local_values(fn, a.id)
+        if not vals or len(vals) != 1 or not isinstance(vals[0], ast.Call):
+          raise AnalysisError(
+              f"Optimize: visitor object `{a.id}` is not bound exactly once")
+        a = vals[0]
+      if isinstance(a, ast.Call):
+        out.add(_last(a.func))
+      else:
+        raise AnalysisError(f"Optimize: `{src(c)}` applies an unknown visitor")
+  return out
+
+
+@rule("R11.7", "C11", floor=2)
+def r11_7(ctx):
+  """A pass that reasons about bare class names runs on simplified containers."""
+  mod = get_module(ctx, OPT)
+  fn = mod.func("Optimize")
+  consumers = {}
+  for cls, call in _hierarchy_consumers(mod, fn):
+    consumers.setdefault(cls, call)
+  if not consumers:
+    raise AnalysisError("Optimize: no visitor is constructed with the hierarchy")
+  for cls in consumers:
+    m = mod.methods(cls).get("VisitUnionType")
+    if m is None:
+      raise AnalysisError(f"{cls}: VisitUnionType not found")
+    attr = _hierarchy_attr(mod, cls)
+    qs = _hierarchy_queries(mod, m, attr)
+    # the hierarchy is keyed by class name: X[Any] prints as "X[Any]", which is
+    # no key of it, so only the bare class X takes part
+    named = [c for c, _ in qs if c.args and isinstance(c.args[0], ast.Call)
+             and dotted(c.args[0].func) == "str"]
+    looks_inside = any(isinstance(n, ast.Attribute) and n.attr == "base_type"
+                       for n in ast.walk(m))
+    if not named or looks_inside:
+      raise AnalysisError(
+          f"{cls}.VisitUnionType no longer keys the hierarchy by str(member) "
+          "only: whether it needs simplified containers is unknown")
+  normaliser = "SimplifyContainers"
+
+  def gen(unit):
+    return ["bare"] if normaliser in _applied_passes(mod, fn, unit) else []
+
+  def kill(unit):
+    p = _applied_passes(mod, fn, unit)
+    if p & CREATES_ANY_CONTAINER and normaliser not in p:
+      return ["bare"]
+    return None
+
+  f = flow.flow(fn, gen, kill, mode="must")
+  sites = {}
+  for n in ast.walk(fn):
+    if isinstance(n, ast.stmt) and not isinstance(
+        n, _FUNCS + (ast.If, ast.For, ast.While, ast.With, ast.Try)):
+      for cls in _applied_passes(mod, fn, n) & set(consumers):
+        sites.setdefault(cls, []).append(n)
+  last_consumer_line = 0
+  for cls in sorted(consumers):
+    if cls not in sites:
+      raise AnalysisError(f"Optimize constructs {cls} but never applies it")
+    for i, st in enumerate(sites[cls]):
+      before = f.before.get(st)
+      if before is None:
+        raise AnalysisError(f"Optimize: application of {cls} is unreachable")
+      last_consumer_line = max(last_consumer_line, st.lineno)
+      construct = f"Optimize:{cls}:runs-on-simplified-containers" + (
+          "" if i == 0 else f"#{i + 1}")
+      ctx.check("bare" in before, construct, OPT, st.lineno,
+                f"{cls} only relates bare class names (it keys the hierarchy "
+                f"by str(member)), but on some path to it no {normaliser} has "
+                "run since the input / the last pass that can create X[Any] "
+                f"({sorted(CREATES_ANY_CONTAINER)}): Union[Sub, X[Any]] is "
+                f"left alone, the final {normaliser} turns it into "
+                "Union[Sub, X], and optimising that output again drops Sub - "
+                "Optimize is not idempotent",
+                {"normaliser": normaliser,
+                 "simplified_on_every_path": "bare" in before})
+  # recorded, not judged (see EXPLANATION): creators that run after the last
+  # bare-class consumer and are followed by the final normaliser
+  late = sorted({p for n in ast.walk(fn) if isinstance(n, ast.stmt)
+                 and not isinstance(n, _FUNCS + (ast.If, ast.For, ast.While,
+                                                 ast.With, ast.Try))
+                 and n.lineno > last_consumer_line
+                 for p in _applied_passes(mod, fn, n) & CREATES_ANY_CONTAINER})
+  if late:
+    ctx.note(
+        f"R11.7 (recorded, not judged): {late} can create X[Any] after the "
+        "last bare-class consumer; the final SimplifyContainers then exposes "
+        "a bare X that no hierarchy pass sees in this run "
+        "(Union[Stack, list[object]] -> Union[Stack, list] -> list on a "
+        "second run)")
+
+
 VARIANTS = [
     # R11.1
     {"name": "generate_pyi_ast-lossy", "rule": "R11.1", "file": IO, "expect": "fire",
@@ -669,4 +1247,61 @@ VARIANTS = [
     {"name": "twin-final-simplify-renamed-local", "rule": "R11.4", "file": OPT, "expect": "silent",
      "old": "    node = node.Visit(visitors.AdjustSelf())\n  node = node.Visit(SimplifyContainers())\n",
      "new": "    node = node.Visit(visitors.AdjustSelf())\n  simplifier = SimplifyContainers()\n  node = node.Visit(simplifier)\n"},
+    # R11.6
+    {"name": "seeded-C01-m1", "rule": "R11.6", "patch": "seeded/C01-m1/patch.diff", "expect": "fire"},
+    {"name": "expand-subclasses-walks-superclass-table", "rule": "R11.6", "file": OPT, "expect": "fire",
+     "old": "        queue.extend(self._subclasses[item])",
+     "new": "        queue.extend(self._superclasses.get(item, []))"},
+    {"name": "subclass-table-not-inverted", "rule": "R11.6", "file": OPT, "expect": "fire",
+     "old": "    self._subclasses = utils.invert_dict(self._superclasses)",
+     "new": "    self._subclasses = dict(self._superclasses)"},
+    {"name": "hierarchy-built-from-subclass-mapping", "rule": "R11.6", "file": OPT, "expect": "fire",
+     "old": "      superclasses.update(abc_hierarchy.GetSuperClasses())",
+     "new": "      superclasses.update(abc_hierarchy.GetSubClasses())"},
+    {"name": "common-superclass-uses-subclass-closure", "rule": "R11.6", "file": OPT, "expect": "fire",
+     "old": "      intersection.intersection_update(\n          self.hierarchy.ExpandSuperClasses(str(t))\n      )",
+     "new": "      intersection.intersection_update(\n          self.hierarchy.ExpandSubClasses(str(t))\n      )"},
+    {"name": "absorb-by-superclass-membership-idiom", "rule": "R11.6", "file": OPT, "expect": "error",
+     "old": "    new_type_list = [t for t in union.type_list if c[str(t)] <= 1]",
+     "new": "    names = {str(t) for t in union.type_list}\n    new_type_list = [t for t in union.type_list if not (self.hierarchy.ExpandSuperClasses(str(t)) - {str(t)}) & names]"},
+    {"name": "twin-absorb-counter-renamed-update-form", "rule": "R11.6", "expect": "silent",
+     "edits": [(OPT, "    c = collections.Counter()\n    for t in set(union.type_list):",
+                "    seen_in = collections.Counter()\n    for member in set(union.type_list):"),
+               (OPT, "      if isinstance(t, pytd.GENERIC_BASE_TYPE):\n        c += collections.Counter(self.hierarchy.ExpandSubClasses(str(t)))",
+                "      if isinstance(member, pytd.GENERIC_BASE_TYPE):\n        seen_in.update(self.hierarchy.ExpandSubClasses(str(member)))"),
+               (OPT, "    new_type_list = [t for t in union.type_list if c[str(t)] <= 1]",
+                "    new_type_list = [t for t in union.type_list if seen_in[str(t)] < 2]")]},
+    {"name": "twin-absorb-hierarchy-alias-and-inline-return", "rule": "R11.6", "expect": "silent",
+     "edits": [(OPT, "    c = collections.Counter()\n    for t in set(union.type_list):",
+                "    c = collections.Counter()\n    h = self.hierarchy\n    for t in set(union.type_list):"),
+               (OPT, "        c += collections.Counter(self.hierarchy.ExpandSubClasses(str(t)))",
+                "        c += collections.Counter(h.ExpandSubClasses(str(t)))"),
+               (OPT, "    new_type_list = [t for t in union.type_list if c[str(t)] <= 1]\n    return pytd_utils.JoinTypes(new_type_list)",
+                "    return pytd_utils.JoinTypes(\n        [x for x in union.type_list if not c[str(x)] > 1])")]},
+    {"name": "twin-hierarchy-mapping-copied", "rule": "R11.6", "file": OPT, "expect": "silent",
+     "old": "    hierarchy = SuperClassHierarchy(superclasses)",
+     "new": "    by_name = dict(superclasses)\n    hierarchy = SuperClassHierarchy(by_name)"},
+    # R11.7
+    {"name": "seeded-C11-m2", "rule": "R11.7", "patch": "seeded/C11-m2/patch.diff", "expect": "fire"},
+    {"name": "first-simplify-containers-before-combine", "rule": "R11.7", "file": OPT, "expect": "fire",
+     "old": "  node = node.Visit(CombineContainers())\n  node = node.Visit(SimplifyContainers())\n  if deps:",
+     "new": "  node = node.Visit(SimplifyContainers())\n  node = node.Visit(CombineContainers())\n  if deps:"},
+    {"name": "first-simplify-containers-only-with-max-union", "rule": "R11.7", "file": OPT, "expect": "fire",
+     "old": "  node = node.Visit(CombineContainers())\n  node = node.Visit(SimplifyContainers())\n  if deps:",
+     "new": "  node = node.Visit(CombineContainers())\n  if max_union:\n    node = node.Visit(SimplifyContainers())\n  if deps:"},
+    {"name": "collapse-long-unions-before-hierarchy-pass", "rule": "R11.7", "expect": "fire",
+     "edits": [(OPT, "  if max_union:\n    node = node.Visit(CollapseLongUnions(max_union))\n", ""),
+               (OPT, "  node = node.Visit(CombineContainers())\n  node = node.Visit(SimplifyContainers())\n  if deps:",
+                "  node = node.Visit(CombineContainers())\n  node = node.Visit(SimplifyContainers())\n  if max_union:\n    node = node.Visit(CollapseLongUnions(max_union))\n  if deps:")]},
+    {"name": "twin-first-simplify-on-both-arms", "rule": "R11.7", "expect": "silent",
+     "edits": [(OPT, "  node = node.Visit(CombineContainers())\n  node = node.Visit(SimplifyContainers())\n  if deps:\n",
+                "  node = node.Visit(CombineContainers())\n  if deps:\n    node = node.Visit(SimplifyContainers())\n"),
+               (OPT, "  if max_union:\n    node = node.Visit(CollapseLongUnions(max_union))\n",
+                "  else:\n    node = node.Visit(SimplifyContainers())\n  if max_union:\n    node = node.Visit(CollapseLongUnions(max_union))\n")]},
+    {"name": "twin-first-simplify-bound-to-local", "rule": "R11.7", "file": OPT, "expect": "silent",
+     "old": "  node = node.Visit(CombineContainers())\n  node = node.Visit(SimplifyContainers())\n  if deps:",
+     "new": "  node = node.Visit(CombineContainers())\n  drop_any_params = SimplifyContainers()\n  node = node.Visit(drop_any_params)\n  if deps:"},
+    {"name": "twin-hierarchy-pass-object-built-early", "rule": "R11.7", "expect": "silent",
+     "edits": [(OPT, "    node = node.Visit(SimplifyUnionsWithSuperclasses(hierarchy))",
+                "    absorb = SimplifyUnionsWithSuperclasses(hierarchy)\n    node = node.Visit(absorb)")]},
 ]
